@@ -11,7 +11,7 @@ static const char *K12[] = {"", "a", "/", "~", "~0", "~1", "a/b", "m~n", "0", "0
 #define NK12 12
 
 static V *cur_tree;
-static char cur_ptr[64];
+static char cur_ptr[1024];
 static const char *cur_op = "get";
 static int cur_val;
 static void describe(sb_t *o)
@@ -103,7 +103,7 @@ static int ref_eval(V *v, const char *ptr, size_t plen, V **node, struct rpath *
 		V *cur = *node;
 		if (cur->k == V_OBJ)
 		{
-			char key[64];
+			char key[1024];
 			size_t kl;
 			if (!unescape_token(tok, tl, key, &kl))
 				return RP_UNSPEC;
@@ -225,7 +225,7 @@ static int ref_set(V *v, const char *ptr, V *val, V **out)
 	size_t tl = strlen(tok);
 	if (parent->k == V_OBJ)
 	{
-		char key[64];
+		char key[1024];
 		size_t kl;
 		if (!unescape_token(tok, tl, key, &kl))
 			return RP_UNSPEC;
@@ -413,12 +413,12 @@ static void escape_key(const unsigned char *k, size_t kl, sb_t *out)
 			sb_putc(out, (char)k[i]);
 	}
 }
-static char NODEPTR[64][64];
+static char NODEPTR[64][1024];
 static int n_nodeptr;
 static void node_pointers(V *v, sb_t *prefix)
 {
 	if (n_nodeptr < 64)
-		snprintf(NODEPTR[n_nodeptr++], 64, "%s", sb_str(prefix));
+		snprintf(NODEPTR[n_nodeptr++], 1024, "%s", sb_str(prefix));
 	size_t keep = prefix->n;
 	if (v->k == V_ARR)
 		for (size_t i = 0; i < v->n; i++)
@@ -467,6 +467,14 @@ static void one_tree(V *v, int get_len, int set_len, int with_f)
 		{
 			strcpy(cur_ptr, PSTR[i]);
 			check_get(o, v, f, (i & 63) == 0);
+		}
+		/* index tokens beyond 32 and 64 bits: never a valid position, must not wrap */
+		static const char *bigidx[] = {"/4294967296", "/4294967297", "/18446744073709551616", "/18446744073709551617", "/0/4294967296", "/a/4294967297",
+		                               "/99999999999999999999999", "/4294967295", "/2147483648"};
+		for (unsigned i = 0; i < sizeof bigidx / sizeof bigidx[0]; i++)
+		{
+			strcpy(cur_ptr, bigidx[i]);
+			check_get(o, v, f, 1);
 		}
 	}
 	/* split printf-style form on two-token pointers to array elements */
@@ -565,6 +573,28 @@ static void enumerate(void)
 		struct rr_result rr;
 		rr_parse((const unsigned char *)wide[i], strlen(wide[i]), NULL, &rr);
 		one_tree(rr.value, 5, mc_tier ? 5 : 4, 1);
+	}
+	/* long tokens and deep pointers: formatted paths beyond 128 bytes (getf/setf), many tokens */
+	{
+		static char longdoc[4096];
+		static const int klens[] = {100, 126, 127, 128, 129, 300};
+		for (unsigned i = 0; i < sizeof klens / sizeof klens[0]; i++)
+		{
+			char key[320];
+			memset(key, 'k', (size_t)klens[i]);
+			key[klens[i] / 2] = '~'; /* needs escaping: the pointer is one byte longer than the key */
+			key[klens[i]] = 0;
+			snprintf(longdoc, sizeof longdoc, "{\"%s\":[0,1,2,3,4,5,6,7,8,9,10,11,{\"%s\":null}],\"a\":1}", key, key);
+			va_reset();
+			struct rr_result rr;
+			rr_parse((const unsigned char *)longdoc, strlen(longdoc), NULL, &rr);
+			one_tree(rr.value, 3, 2, 1);
+		}
+		va_reset();
+		struct rr_result rr;
+		const char *deep = "{\"a\":{\"b\":[{\"c\":{\"d\":[[{\"e\":{\"f\":[null,{\"g\":1}]}}]]}}]}}";
+		rr_parse((const unsigned char *)deep, strlen(deep), NULL, &rr);
+		one_tree(rr.value, 3, 2, 1);
 	}
 	/* depth 2: containers whose children come from a pool of depth<=1 values */
 	static const char *pool_docs[] = {"1", "null", "\"s\"", "[]", "{}", "[null]", "[1,null]", "[null,\"s\"]", "{\"\":1}", "{\"a\":null}", "{\"/\":1,\"~\":null}",
